@@ -595,6 +595,12 @@ func (f *Frame) execBuiltin(b *ssa.Builtin, c *ssa.CallCommon, args []Val, st *S
 			// slices start at offset 0 of their arrays and the destination is at least as long
 			if sortOf(st0.Elem()) == SInt && args[1].T.Sort == SSlice {
 				whole := And(Eq(App("s_off", SInt, args[0].T), IntLit(0)), Eq(App("s_off", SInt, args[1].T), IntLit(0)), App(">=", SBool, App("s_len", SInt, args[0].T), App("s_len", SInt, args[1].T)))
+				encSort := ArraySort(SInt, ArraySort(SInt, SInt))
+				for _, k := range []string{"BE16", "BE32", "BE64", "LE32", "LE64"} {
+					if _, known := u.classSort["Enc."+k]; !known {
+						u.classSort["Enc."+k] = encSort
+					}
+				}
 				for _, cls := range sortedKeys(u.classSort) {
 					if !strings.HasPrefix(cls, "Enc.") {
 						continue
